@@ -1,0 +1,34 @@
+//go:build verif
+
+// Contracts for package fail, read by the verification engine in /verif (twv).
+// Comments only; compiled only with the build tag "verif".
+package fail
+
+//@ nonnil elems []*Error
+
+// an error value carries exactly the line, path and origin it was constructed with
+//@ func New
+//@   ensures result != nil && fresh(result) && result.line == line && result.filepath == filepath && result.origin == origin
+//@   modifies nothing
+
+//@ func FromError
+//@   ensures err != nil ==> result != nil && fresh(result) && result.line == line && result.filepath == absPath
+//@   ensures err == nil ==> result == nil
+//@   modifies nothing
+
+//@ func (e *Error) Error
+//@   ensures result != nil
+//@   modifies nothing
+//@ func (e *Error) Line
+//@   ensures result == e.line
+//@   modifies nothing
+//@ func (e *Error) Filepath
+//@   ensures result == e.filepath
+//@   modifies nothing
+//@ func (e *Error) Message
+//@   ensures result == e.message
+//@   modifies nothing
+//@ func (e *Error) Meta
+//@   modifies nothing
+//@ func (e *Error) String
+//@   modifies nothing
